@@ -8,6 +8,9 @@ from props import C01_more
 # >>> w_c01
 from props import C01_w5
 # <<< w_c01
+# >>> s_c01
+from props import C01_sizes
+# <<< s_c01
 
 RULE = ("documents from the abstract model (8 operators, quoted/unquoted/@var/@[..]/non-ASCII scalars, escaped quotes, nested objects, arrays, "
         "arrays of objects, empty containers, headers, parameter blocks, object->array and array->kv mixed containers) x 8 layout styles "
@@ -27,6 +30,13 @@ RULE = ("documents from the abstract model (8 operators, quoted/unquoted/@var/@[
         "nested to depth 4) against the extracted TextDocMixed.wfm_fields / TextDoc.flatten / render and the real parser, with deliberately broken members; "
         "accepted inputs with every kind of ending x trailing gaps (boundary-first, and ';'-first after a boundary byte). "
         # <<< w_c01
+        # >>> s_c01
+        "Wave 6 (props/C01_sizes.py): size / boundary ladders, one dimension at a time on an otherwise small input, through 0 1 2 3 7 8 9 15 16 17 31 32 33 63 64 65 "
+        "127 128 129 255 256 257 1023 1024 1025 4095 4096 4097 65533 65534 65535 65536: lengths of every kind of scalar (bare / quoted / @variable / @[..] / parameter "
+        "name and value / header name / key), of gaps, paddings and comments; counts of fields, duplicate keys, items, ghosts, extraneous braces, operators, "
+        "parameters, escapes, comments; nesting depth of every container kind to 4097; pairs length x padding x distance to the end of input, token count x Vec "
+        "capacity, tape size x reuse (chains of up to 1025 parses); the scanners per function at the same lengths; expected tape by construction. "
+        # <<< s_c01
         "non-trivial = the parse succeeded with at least one container or operator token, or a scanner case with a boundary byte")
 TRUSTED = ["x86-64 SSE2 intrinsics modelled by their lane-wise meaning (first lane whose byte is in the compared set)",
            # a_c01
@@ -182,6 +192,9 @@ def run(ctx):
     # >>> w_c01 (wave 5): wf_doc_mixed documents (containers inside mixed regions), trailing gaps (audit/C01.md)
     C01_w5.run_part(ctx)
     # <<< w_c01
+    # >>> s_c01 (wave 6): size / boundary ladders (audit/C01.md "Size dimensions")
+    C01_sizes.run_part(ctx)
+    # <<< s_c01
 
 
 def search(ctx):
